@@ -571,12 +571,22 @@ CHECKS += [
          technique="lifted execution of default.qubit on z3 angle terms; symbolic differentiation on the circle atoms; z3 QF_NRA validity of the annihilation identity"),
 ]
 
+CHECKS += [
+    dict(property_id="C19", category="other", engine=E1,
+         text="Partial (symbolic angles; circuits and coupling maps enumerated): 4 circuits with long-range two-wire gates (CNOT, CZ, CRX/CRY/CRZ, IsingXX) and SYMBOLIC angles are transpiled by the "
+              "REAL qp.transforms.transpile onto every matching coupling map among two lines, a ring, a star and a T shape; every two-wire gate of the result acts on an edge (structural), and the "
+              "original and transpiled circuits run on the lifted default.qubit: z3 proves all measurement results (one-wire expectation values, variances, probabilities on wire subsets, through "
+              "the returned post-processing) equal for all angles.",
+         note=PROOF_NOTE + " Category 'other' (partial): routing optimality, gates on more than two wires and tensor-product observables (rejected by transpile), the networkx shortest-path routine "
+              "itself (its output is checked) and more than 5 wires are outside. A hand-made mutant (measurements not re-mapped after an odd-length swap path) is reported by 7 obligations.",
+         technique="lifted execution of default.qubit on z3 angle terms for the original and the transpiled circuit; z3 QF_NRA equality proofs; structural connectivity check"),
+]
+
 _NOT_BUILT = "claimed in DESIGN.md §4 but its solver-based check is not built yet in this tree"
 NOT_APPLICABLE_REASONS = {
     "C11": "declared resources depend only on discrete configurations that must each be run concretely; no symbolic dimension",
     "C14": "unitary synthesis runs through eig/svd/det and arctan2/arccos on arbitrary unitaries (LAPACK, inverse transcendental functions)",
     "C15": "Clifford+T approximation: float/mpmath grid search with input-dependent loops; epsilon-bound on a numerically produced word",
-    "C19": "transpile: networkx routing over enumerated graphs; nothing numeric to symbolise",
     "C24": "circuit cutting: graph partitioning + opt_einsum contraction on typed arrays",
     "C29": "finite-shot sampling: statistical property",
     "C31": "parallel/seeded execution: OS scheduling, processes, threads",
